@@ -258,5 +258,14 @@ func (c *Client) JoinPresence(ctx context.Context, p stanza.Presence, s *xmpp.Se
 	c.managedM.Unlock()
 
 	err := channel.JoinPresence(ctx, p, opt...)
+	if err != nil {
+		// The room was not joined: do not treat later presences from the occupant
+		// address as belonging to a joined room.
+		c.managedM.Lock()
+		if c.managed[p.To.String()] == channel {
+			delete(c.managed, p.To.String())
+		}
+		c.managedM.Unlock()
+	}
 	return channel, err
 }
